@@ -386,6 +386,12 @@ def run_real(world, o, d, extra=(), timeout=120, env_extra=None):
     if o.get("color"):
         obs.raw_stdout = obs.stdout
         obs.stdout = re.sub(r"\x1b\[[0-9;]*m", "", obs.stdout)
+    load_trace(obs, trace)
+    return obs
+
+
+def load_trace(obs, trace):
+    """fill obs.events / obs.procs from a trace file"""
     if os.path.exists(trace):
         with open(trace) as f:
             for line in f:
